@@ -5,14 +5,16 @@ package main
 // (mode=long) or with a fresh engine + persister per request (mode=pers, memory store).
 
 import (
-	"os"
 	"bytes"
 	"context"
 	"fmt"
+	"os"
+	"regexp"
 	"sort"
 	"strconv"
 	"strings"
 
+	"git.defalsify.org/vise.git/asm"
 	"git.defalsify.org/vise.git/cache"
 	"git.defalsify.org/vise.git/db"
 	fsdb "git.defalsify.org/vise.git/db/fs"
@@ -61,6 +63,142 @@ type eCase struct {
 	langof  map[string]string
 	inputs  [][]byte
 	res     string // "" = the recording resource; "db" / "dbfs" = the library's DbResource over a mem / fs store
+	// options of how the harness serves the case (the model does not see them):
+	//   asm     the nodes' bytecode is produced by the real assembler from the source text of the instructions
+	//   pflush  persisted mode uses a persister WithFlush()
+	//   shared  persisted mode with res=db/dbfs keeps the session in the store that also holds the application
+	//   static  with res=db/dbfs, handler symbols that only return fixed content are stored under STATICLOAD
+	opts      map[string]bool
+	asmNodes  map[string][]byte
+	preferAsm bool // generator hint: serve through the assembler more often
+}
+
+func (c *eCase) opt(k string) bool { return c.opts != nil && c.opts[k] }
+
+func (c *eCase) setOpt(k string) {
+	if c.opts == nil {
+		c.opts = map[string]bool{}
+	}
+	c.opts[k] = true
+}
+
+// codeOf: the bytecode the resource hands out for a node.
+func (c *eCase) codeOf(sym string) ([]byte, bool) {
+	if c.opt("asm") {
+		b, ok := c.asmNodes[sym]
+		return b, ok
+	}
+	b, ok := c.nodes[sym]
+	return b, ok
+}
+
+var asmNameRe = regexp.MustCompile(`^[a-z_*.^<>][a-zA-Z0-9_]*$`)
+var asmNumRe = regexp.MustCompile(`^(0|[1-9][0-9]{0,8})$`)
+
+func asmSelOK(s string) bool {
+	return s == "*" || asmNumRe.MatchString(s) || regexp.MustCompile(`^[a-z][a-zA-Z0-9_]*$`).MatchString(s)
+}
+
+// asmSource writes the instructions as assembly text, inside the domain where the assembler is faithful
+// (theorem assemble_faithful: names starting with a lower-case letter or one of _ * . ^ < >, decimal or word selectors).
+func asmSource(is []GInstr) (string, bool) {
+	var sb strings.Builder
+	m := func(b bool) int {
+		if b {
+			return 1
+		}
+		return 0
+	}
+	for _, i := range is {
+		switch i.Op {
+		case "HALT", "MSINK":
+			sb.WriteString(i.Op + "\n")
+		case "LOAD":
+			if !asmNameRe.MatchString(i.A) {
+				return "", false
+			}
+			fmt.Fprintf(&sb, "LOAD %s %d\n", i.A, i.N)
+		case "RELOAD", "MAP", "MOVE":
+			if !asmNameRe.MatchString(i.A) {
+				return "", false
+			}
+			fmt.Fprintf(&sb, "%s %s\n", i.Op, i.A)
+		case "CATCH":
+			if !asmNameRe.MatchString(i.A) {
+				return "", false
+			}
+			fmt.Fprintf(&sb, "CATCH %s %d %d\n", i.A, i.N, m(i.M))
+		case "CROAK":
+			fmt.Fprintf(&sb, "CROAK %d %d\n", i.N, m(i.M))
+		case "INCMP", "MOUT", "MNEXT", "MPREV":
+			if !asmNameRe.MatchString(i.A) || i.A == "*" || !asmSelOK(i.B) {
+				return "", false
+			}
+			fmt.Fprintf(&sb, "%s %s %s\n", i.Op, i.A, i.B)
+		default:
+			return "", false
+		}
+	}
+	return sb.String(), true
+}
+
+// asmOK: every node can be written as assembly source inside the safe domain.
+func (c *eCase) asmOK() bool {
+	for _, code := range c.nodes {
+		is, ok := allInstrs(code)
+		if !ok {
+			return false
+		}
+		if _, ok := asmSource(is); !ok {
+			return false
+		}
+	}
+	return true
+}
+
+// buildAsm assembles every node with the library's assembler.
+func (c *eCase) buildAsm() bool {
+	c.asmNodes = map[string][]byte{}
+	for name, code := range c.nodes {
+		is, ok := allInstrs(code)
+		if !ok {
+			return false
+		}
+		src, ok := asmSource(is)
+		if !ok {
+			return false
+		}
+		w := bytes.NewBuffer(nil)
+		if _, err := asm.Parse(src, w); err != nil {
+			return false
+		}
+		c.asmNodes[name] = w.Bytes()
+	}
+	return true
+}
+
+// staticSyms: handler symbols that only ever return fixed content (served from STATICLOAD with the static option).
+func (c *eCase) staticSyms() map[string]bool {
+	r := map[string]bool{}
+	if !c.opt("static") || c.res == "" {
+		return r
+	}
+	for _, e := range c.exts {
+		if e.callIdx >= 0 {
+			return r // rules chosen by call index: every call must go through the counting resource
+		}
+	}
+	bad := map[string]bool{}
+	for _, e := range c.exts {
+		r[e.sym] = true
+		if e.callIdx >= 0 || e.status != 0 || len(e.set) > 0 || len(e.reset) > 0 || e.fail || (e.lang != nil && (*e.lang == "" || c.langof[*e.lang] != *e.lang)) {
+			bad[e.sym] = true
+		}
+	}
+	for k := range bad {
+		delete(r, k)
+	}
+	return r
 }
 
 func optLangS(l *string) string {
@@ -98,6 +236,9 @@ func (c *eCase) String() string {
 		"root="+hx([]byte(c.root)), "lang="+hx([]byte(c.lang)), "sep="+hx([]byte(c.sep)), "roe="+b01(c.roe), "wf="+b01(c.wf))
 	if c.res != "" {
 		f = append(f, "res="+c.res)
+	}
+	if len(c.opts) > 0 {
+		f = append(f, "opt="+strings.Join(sortedKeysB(c.opts), ","))
 	}
 	for _, n := range c.nodeOrd {
 		f = append(f, "node="+hx([]byte(n))+":"+hx(c.nodes[n]))
@@ -201,6 +342,10 @@ func parseECase(line string) (*eCase, bool) {
 			c.wf = v == "1"
 		case "res":
 			c.res = v
+		case "opt":
+			for _, o := range strings.Split(v, ",") {
+				c.setOpt(o)
+			}
 		case "node":
 			p := strings.Split(v, ":")
 			if len(p) != 2 {
@@ -272,6 +417,9 @@ func parseECase(line string) (*eCase, bool) {
 			return nil, false
 		}
 	}
+	if c.opt("asm") && !c.buildAsm() {
+		return nil, false
+	}
 	return c, true
 }
 
@@ -334,7 +482,7 @@ func (r *recRes) GetTemplate(ctx context.Context, sym string) (string, error) {
 
 func (r *recRes) GetCode(ctx context.Context, sym string) ([]byte, error) {
 	r.lookups = append(r.lookups, lookupRec{"code", sym, ctxLang(ctx)})
-	b, ok := r.c.nodes[sym]
+	b, ok := r.c.codeOf(sym)
 	if !ok {
 		return nil, fmt.Errorf("nocode %s", sym)
 	}
@@ -469,8 +617,15 @@ func (c *eCase) resStore() (db.Db, func()) {
 		}
 		store.Put(ctx, []byte(k), v)
 	}
-	for k, b := range c.nodes {
+	for k := range c.nodes {
+		b, _ := c.codeOf(k)
 		put(db.DATATYPE_BIN, nil, k, b)
+	}
+	static := c.staticSyms()
+	for _, e := range c.exts {
+		if static[e.sym] {
+			put(db.DATATYPE_STATICLOAD, e.lang, e.sym, []byte(e.content))
+		}
 	}
 	for _, t := range c.tpls {
 		put(db.DATATYPE_TEMPLATE, t.lang, t.sym, []byte(t.text))
@@ -494,9 +649,13 @@ func (c *eCase) resourceFor(rec *recRes, store db.Db) resource.Resource {
 		return rec
 	}
 	rs := resource.NewDbResource(store)
+	static := c.staticSyms()
+	if len(static) > 0 {
+		rs = rs.With(db.DATATYPE_STATICLOAD)
+	}
 	seen := map[string]bool{}
 	for _, r := range c.exts {
-		if seen[r.sym] {
+		if seen[r.sym] || static[r.sym] {
 			continue
 		}
 		seen[r.sym] = true
@@ -725,6 +884,9 @@ func (c *eCase) runPers(store db.Db, inputs [][]byte, ncallsp *int, before func(
 	defer func() { *ncallsp = ncalls }()
 	rstore, rclean := c.resStore()
 	defer rclean()
+	if c.opt("shared") && rstore != nil {
+		store = rstore // one store object holds the application and the session (as in examples/db)
+	}
 	stopped := false
 	for ii, in := range inputs {
 		if before != nil {
@@ -736,6 +898,9 @@ func (c *eCase) runPers(store db.Db, inputs [][]byte, ncallsp *int, before func(
 		}
 		rs := &recRes{c: c, ncalls: &ncalls}
 		pe := persist.NewPersister(store)
+		if c.opt("pflush") {
+			pe = pe.WithFlush()
+		}
 		en := engine.NewEngine(cfg, c.resourceFor(rs, rstore)).WithPersister(pe)
 		if f := rs.firstFunc(); f != nil {
 			en = en.WithFirst(f)
